@@ -126,6 +126,24 @@ pub fn create_and_read_back(work: &Work, report: &mut BodyReport) {
     // insertion fails and goes on with the rest (the others give up at the first error): if the
     // creator then says Ok at the end, everything it acknowledged must be there
     let skip_failed = work.hard_err_call.is_some() && work.aux_seed % 2 == 0;
+    // ... and in half of those exactly one source fails, late in the sequence (the last item, or
+    // one or two before it) and read by a compression worker: a fault placed where little work
+    // is left to notice it, instead of every simulated stream failing at its k-th read
+    let n_contents = work.contents.len();
+    let one_late_failure = if skip_failed && (work.aux_seed >> 1) % 2 == 0 && n_contents > 0 {
+        Some(n_contents - 1 - (((work.aux_seed >> 2) % 3) as usize).min(n_contents - 1))
+    } else {
+        None
+    };
+    let opts_no_error = gen::BuildOpts {
+        progress: collector.clone(),
+        sim_cfg: SimReaderCfg {
+            short_pm: 300,
+            intr_pm: 120,
+            err_at_call: None,
+        },
+        sim_stats: Arc::clone(&stats),
+    };
     enum Adder {
         Plain(jubako::creator::ContentPackCreator<jubako::creator::NamedFile>),
         Cached(jubako::creator::CachedContentAdder<jubako::creator::ContentPackCreator<jubako::creator::NamedFile>>),
@@ -137,7 +155,22 @@ pub fn create_and_read_back(work: &Work, report: &mut BodyReport) {
     };
     for (i, c) in work.contents.iter().enumerate() {
         use jubako::creator::ContentAdder;
-        let input = match gen::make_input(c, i, &work.scratch, work.aux_seed, &opts) {
+        let late_failing;
+        let (c, opts) = match one_late_failure {
+            Some(k) if k == i => {
+                late_failing = ContentSpec {
+                    bytes: Arc::clone(&c.bytes),
+                    hint: if work.comp == Comp::None { c.hint } else { Hint::Yes },
+                    src: SrcKind::Sim,
+                    pack: c.pack,
+                };
+                report.notes.insert("one_late_failing_source".into(), 1);
+                (&late_failing, &opts)
+            }
+            Some(_) => (c, &opts_no_error),
+            None => (c, &opts),
+        };
+        let input = match gen::make_input(c, i, &work.scratch, work.aux_seed, opts) {
             Ok(x) => x,
             Err(e) => simcore::harness_error(&format!("cannot prepare input {i}: {e}")),
         };
